@@ -10,6 +10,7 @@ import json
 from fractions import Fraction as F
 from common import *
 from colours import NODES
+OPS_EXTRA = {"cam16ucsjab": [(0, 100), (-50, 50), (-50, 50)], "cam16ucsjmh": [(0, 100), (0, 50), None]}    # operator driver only
 
 B = 8192
 SECTIONS = '{"mix", "mixhue", "inc", "colour", "scheme", "arith", "machine"}'
@@ -46,7 +47,7 @@ def fr(j):
     return F(j[0] * m) * F(B) ** j[1]
 
 
-HUE_IDX = {"lch": 2, "lchuv": 2, "oklch": 2, "hsluv": 0, "okhsl": 0, "okhsv": 0, "okhwb": 0, "hsl": 0, "hsv": 0, "hwb": 0}
+HUE_IDX = {"lch": 2, "lchuv": 2, "oklch": 2, "cam16ucsjmh": 2, "hsluv": 0, "okhsl": 0, "okhsv": 0, "okhwb": 0, "hsl": 0, "hsv": 0, "hwb": 0}
 LIGHT_IDX = {"xyz": (0, 1, 2), "linsrgb": (0, 1, 2), "srgb": (0, 1, 2), "yxy": (2,), "hsluv": (2,), "okhsl": (2,), "okhsv": (2,),
              "hsl": (2,), "hsv": (2,)}
 
@@ -173,7 +174,7 @@ def describe(e):
 
 def one_spec(ev, scen):
     """the --one command that re-executes the sweep this event belongs to"""
-    n = len(NODES[ev["node"]])
+    n = len((NODES.get(ev["node"]) or OPS_EXTRA[ev["node"]]))
     grp = [s for s in scen if s.get("ev") == "op" and s.get("gid") == ev.get("gid")] or [ev]
     alpha_ev = next((s for s in grp if "alpha" in s["form"]), None)
     base = next((s for s in grp if s["form"] == "val"), None)
@@ -239,7 +240,7 @@ def run(ctx):
     pool = ThreadPoolExecutor(max_workers=1)
     model = pool.submit(model_run, ctx)
     nodes = ctx.p("nodes.json")
-    json.dump({k: [None if r is None else list(r) for r in v] for k, v in NODES.items()}, open(nodes, "w"))
+    json.dump({k: [None if r is None else list(r) for r in v] for k, v in list(NODES.items()) + list(OPS_EXTRA.items())}, open(nodes, "w"))
     tp = ctx.p("ops.ndjson")
     r = run_bin(bins["ops"], ["--tier", ctx.tier, "--nodes", nodes, "--out", tp], env={"VERIF_SEED": ctx.seed})
     stats = json.loads((r.stderr or "{}").strip().splitlines()[-1])
@@ -247,7 +248,11 @@ def run(ctx):
     ctx.cov["traces_validated_against_impl"] += res.events - len(res.rejected)
     add_samples(ctx, tp, n=5, every=20011)
     ctx.cov["distinct_nontrivial"] = stats.get("groups", 0)
-    cal = calibrate(tp, every=1 if ctx.quick else 5)
+    try:      # margins for the evidence file only: never between the verdict and its report
+        cal = calibrate(tp, every=1 if ctx.quick else 5)
+    except Exception as ex:
+        log("C10: margin book-keeping failed (%s: %s); the verdict is unaffected" % (type(ex).__name__, ex))
+        cal = {}
     ncol = model.result()
     return finish(ctx, "model_checking",
                   rule="a case is one call signature (operator family, method, colour type, component type, exact input colours "
@@ -277,7 +282,7 @@ def replay(ctx, path):
         run_bin(bins["ops"], ["--one", json.dumps(rp["one"]), "--out", tp])
     else:
         nodes = ctx.p("nodes.json")
-        json.dump({k: [None if r is None else list(r) for r in v] for k, v in NODES.items()}, open(nodes, "w"))
+        json.dump({k: [None if r is None else list(r) for r in v] for k, v in list(NODES.items()) + list(OPS_EXTRA.items())}, open(nodes, "w"))
         run_bin(bins["ops"], ["--tier", "quick", "--nodes", nodes, "--out", ctx.p("all.ndjson")])
         with open(tp, "w") as f:
             for line in open(ctx.p("all.ndjson")):
